@@ -266,6 +266,15 @@ func (v *wireView) firstByte(root *ssa.Function, val ssa.Value, depth int) (*wir
 		return nil, "definition chain too long"
 	}
 	x := v.w.canon(root, val)
+	if _, isMake := x.(*ssa.MakeSlice); isMake {
+		// a buffer of the exact size filled in place
+		if parts, ok := v.w.byteSeq(root, x, 0); ok && len(parts) > 0 && parts[0].one != nil {
+			if k, isK := intConst(v.w.canon(root, parts[0].one)); isK {
+				return &wireFirst{val: k, how: fmt.Sprintf("buffer with first byte %d", k)}, ""
+			}
+			return nil, "first byte of the assembled request is not constant"
+		}
+	}
 	switch y := x.(type) {
 	case *ssa.Slice:
 		a, ok := y.X.(*ssa.Alloc)
